@@ -165,6 +165,46 @@ def check(ix, rep):
                      'leaves x with the io type it had (an output, for a variable declared through the API first) and its predicates are treated as output predicates',
                      f.node.lineno)
     rep.floor('declaration builders checked for the io keyword', ndecl, 1)
+    # set_var_io_type(name, t) writes the table the parser reads (var_io_dict[name]) on every path on which the variable exists: a shortcut on one
+    # of the redundant sets (`if name in self.in_vars: return`) skips the store although declare_var() has put the entry back to 'output' since
+    absast_ = ix.find_class('rtamt.syntax.ast.parser.abstract_ast_parser', 'AbstractAst')
+    sio = absast_.methods.get('set_var_io_type') if absast_ is not None else None
+    if sio is None:
+        raise AnalysisError('AbstractAst.set_var_io_type vanished')
+    rep.analysed(sio)
+    namep = sio.node.args.args[1].arg
+    cfg = _flow.CFG(sio.node)
+
+    def _is_store(st):
+        return isinstance(st, ast.Assign) and any(isinstance(t, ast.Subscript) and ast.unparse(t.value) == 'self.var_io_dict' and ast.unparse(t.slice) == namep for t in st.targets)
+    blocked = {n for n in cfg.nodes() if cfg.stmt[n] is not None and _is_store(cfg.stmt[n])}
+    # the arm taken when the variable does not exist is exempt
+    for n in cfg.nodes():
+        st = cfg.stmt[n]
+        if isinstance(st, ast.If):
+            t = ast.unparse(st.test).replace(' ', '')
+            absent_body = t in ('not%sinself.vars' % namep, '%snotinself.vars' % namep, 'not(%sinself.vars)' % namep)
+            absent_else = t == '%sinself.vars' % namep
+            arm = st.body if absent_body else (st.orelse if absent_else else [])
+            for x in arm:
+                for y in ast.walk(x):
+                    if cfg.node(y) is not None:
+                        blocked.add(cfg.node(y))
+    seen, stack = set(), [cfg.entry]
+    while stack:
+        n = stack.pop()
+        if n in seen or n in blocked:
+            continue
+        seen.add(n)
+        stack.extend(cfg.succ[n])
+    if not any(_is_store(st) for st in ast.walk(sio.node)):
+        rep.fail('R-IOVARS', sio.module.rel, sio.qual, 'set_var_io_type:table', 'set_var_io_type() never writes self.var_io_dict[%s], the entry the parser reads' % namep, sio.node.lineno)
+    elif cfg.exit in seen:
+        rep.fail('R-IOVARS', sio.module.rel, sio.qual, 'set_var_io_type:table', 'set_var_io_type() can return for an existing variable without writing self.var_io_dict[%s]: the parser reads '
+                 'the io signature from that table, and declare_var() / a declaration in the text puts the entry back to \'output\' without touching the sets a shortcut may look at'
+                 % namep, sio.node.lineno)
+    else:
+        rep.ok('R-IOVARS', sio.module.rel, sio.qual, 'set_var_io_type:table', 'every path for an existing variable writes var_io_dict[%s]' % namep, sio.node.lineno)
     # the sixteen interface-aware monitors are separate objects: nothing hands one interpreter to two specifications
     from sa.rules import globals as _G
     _G.fixture_selfcheck(rep)
